@@ -20,7 +20,8 @@ CONSTANTS MaxQ,        \* bound on the length of the external queue
           MaxCFail,    \* contract-failure positions 0..MaxCFail are injected
           MaxMFail,    \* monitor-failure positions 0..MaxMFail are injected
           MaxLevel,    \* bound on the length of behaviours
-          EmitEdges    \* print one replayable test per edge
+          EmitEdges,   \* print one replayable test per edge
+          Twin         \* "" | "ignore": also run the twin of every call (relational properties)
 
 VARIABLES ci, S, clk, G, dead, last, hist
 vars == <<ci, S, clk, G, dead, last, hist>>
@@ -41,21 +42,35 @@ MaskG(ch, g) ==
   [g EXCEPT !.entryT = [q \in States(ch) |-> IF q \in TimedStates(ch) THEN @[q] ELSE 0],
             !.idleT  = [q \in States(ch) |-> IF q \in TimedStates(ch) THEN @[q] ELSE 0],
             !.snap   = [q \in States(ch) |-> IF q \in HistParents(ch) THEN @[q] ELSE {}],
-            !.oldx   = [q \in States(ch) |-> -1]]
+            !.oldx   = [q \in States(ch) |-> IF q \in OldStates(ch) THEN @[q] ELSE -1]]
 
 St(s) == [conf |-> s.conf, final |-> Final(s), time |-> s.time, x |-> s.x]
 
 NoOrc == [gv |-> <<>>, cfail |-> 0, mfail |-> 0]
 
+RefOf(rel, A) ==
+  [rel |-> rel, exc |-> A.exc, some |-> A.exc = "" /\ A.steps # <<>>,
+   steps |-> IF A.exc = "" THEN A.steps ELSE <<>>, log |-> A.log,
+   conf |-> A.S.conf, final |-> Final(A.S), x |-> A.S.x]
+
 Obs(op, ev, par, dl, orc, clk0, s0, s1, A) ==
-  [op |-> op, ev |-> ev, par |-> par, dl |-> dl,
+  [op |-> op, ev |-> ev, par |-> par, dl |-> dl, ign |-> Opt.ignore,
+   hasl2 |-> Opt.metas,
+   l2 |-> IF ~Opt.metas THEN <<>>
+          ELSE IF A.exc = "PropertyStatechartError" THEN Front(MetasL(A.log)) ELSE MetasL(A.log),
+   mt |-> [j \in DOMAIN MetasL(A.log) |-> MetasL(A.log)[j].t],
+   ref |-> IF op = "exec" /\ (orc.cfail # 0 \/ orc.mfail # 0)
+             THEN RefOf("nofail", MacroStep(c, Opt, [orc EXCEPT !.cfail = 0, !.mfail = 0], s0, clk0))
+           ELSE IF op = "exec" /\ Twin = "ignore"
+             THEN RefOf("ignore", MacroStep(c, [Opt EXCEPT !.ignore = TRUE], orc, s0, clk0))
+           ELSE NoRef,
    gv |-> orc.gv, cfail |-> orc.cfail, mfail |-> orc.mfail, clk |-> clk0,
    pre |-> St(s0), post |-> St(s1),
    some |-> A.exc = "" /\ A.steps # <<>>, rtime |-> s1.time,
    steps |-> IF A.exc = "" THEN A.steps ELSE <<>>,
    exc |-> A.exc, eobj |-> A.eobj, eidx |-> A.eidx, log |-> A.log]
 
-NoA == [exc |-> "", eobj |-> 0, eidx |-> 0, steps |-> <<>>, log |-> <<>>]
+NoA == [exc |-> "", eobj |-> 0, eidx |-> 0, steps |-> <<>>, log |-> <<>>, S |-> [conf |-> {}, init |-> FALSE, x |-> 0]]
 
 HEntry(op, ev, par, dl, d, orc) ==
   [op |-> op, ev |-> ev, par |-> par, dl |-> dl, d |-> d,
